@@ -30,6 +30,10 @@ REQUIRED = [
     'Ems.C07.buffer_faces_sorted', 'Ems.C07.kept_faces_spec', 'Ems.C07.kept_faces_sorted',
     'Ems.C07.renumber_contiguous', 'Ems.C07.clip_mask_contiguous', 'Ems.C07.renumber_order_irrelevant',
     'Ems.C07.hit_order_numbering_violates',
+    # c_mask_from_centres / smear_mask as the source has them (Gen/Pipelines.lean, translated by harness/pipelines.py on every run)
+    'Ems.C07.cmask_pipelines_translated', 'Ems.C07.maskArr_shape_spec', 'Ems.C07.maskArr_get_spec',
+    'Ems.C07.cmask_left_pipeline_spec', 'Ems.C07.cmask_back_pipeline_spec', 'Ems.C07.cmask_node_pipeline_spec',
+    'Ems.C07.blur_pipeline_translated', 'Ems.C07.blur_pipeline_spec',
 ]
 RULE = ('primitives: boolean arrays (thorough: every array of every shape 1..4 x 1..4; quick: a seeded sample of '
         'them plus random arrays up to 7x9) through blur_mask for size 0..3 and smear_mask for all four pad_axes '
@@ -45,16 +49,28 @@ RULE = ('primitives: boolean arrays (thorough: every array of every shape 1..4 x
         'The GEOS truth table (ground-truth polygon .intersects(geometry), cell by cell) is the model\'s '
         '`intersects` oracle; the model gets the hits in a shuffled order. Non-trivial = the hit set is a '
         'proper non-empty subset of the cells, or buffer > 0 reaches the array border, or the hit order '
-        'is not ascending; distinct = distinct (convention, shape / mesh, truth table, buffer).')
+        'is not ascending; distinct = distinct (convention, shape / mesh, truth table, buffer). '
+        'Pipelines: the source text of arakawa_c.c_mask_from_centres with its three calls of masking.smear_mask inlined, and of '
+        'masking.blur_mask, is translated on every run into terms of the numpy expression language (harness/pipelines.py -> Gen.cMaskLeft / '
+        'cMaskBack / cMaskNode / blurMask); for every array c_mask_from_centres / blur_mask is run on, the generated terms are evaluated in '
+        'the driver on the same mask (and size) (`pipe cmask`, `pipe blurall`, `pipe blur`) and compared with what the running code returns.')
 TRUSTED = [
     'GEOS `intersects` (the truth table handed to the model) and STRtree.query(predicate="intersects") == brute force over the cells (checked on every case)',
     'numpy.pad / basic slicing / numpy.any / fancy assignment on a flat view / numpy.sort(numpy.unique(.)) as modelled in Core/Mask.lean and Core/MeshMask.lean',
+    'the source translator harness/pipelines.py (Python ast -> NpExpr: inlined calls of smear_mask, unrolled generator expressions over '
+    'itertools.product, functools.reduce(operator.or_, .); for blur_mask the nditer / fromiter idiom recognised as a whole, assuming nditer '
+    'visits a C-contiguous array in C order) and the semantics of numpy.pad / | / the window constructor windowAny in Core/NpExpr.lean; what '
+    'the translator cannot render becomes NpExpr.unsupported and breaks Ems.C07.cmask_pipelines_translated / blur_pipeline_translated; its '
+    'output is validated against the running code by the `pipe cmask` / `pipe blurall` / `pipe blur` operations on every run',
 ]
 ASSUMPTIONS = [
     'clip masks are 2-D (grids) as produced by emsarray; blur_mask / smear_mask on other ranks are outside the property',
     'edge numbering of a mesh without a stored edge_node table is emsarray\'s own; it is read back and validated against the generator\'s face-node lists before use',
 ]
-LEVEL_NOTE = 'GEOS predicates enter as an oracle (truth table); everything downstream of the hit list is proved.'
+LEVEL_NOTE = ('GEOS predicates enter as an oracle (truth table); everything downstream of the hit list is proved. '
+              'cmask_left/back/node_pipeline_spec are about terms regenerated from the source text of c_mask_from_centres / smear_mask on '
+              'every run, for every shape: they compute the arrays of the hand model cMaskFromCentres; blur_pipeline_spec does the same for '
+              'blur_mask (every mask, every size >= 0: the generated term computes Mask.blur).')
 
 # minimised past failures, run first on every run (finding F1: two quads sharing an edge, a line
 # along that edge; the spatial index returns the hits as [1, 0])
@@ -221,6 +237,11 @@ def prim_case(ctx, arr: np.ndarray, items: list, fails: list, kind: str) -> None
         except Exception as e:
             outs.append('ERR')
     items.append((f'blurall {sh} {b} 3', '|'.join(outs), {**desc, 'op': f'blurall {sh} {b} 3'}))
+    # the same four arrays from the term translated from the source of blur_mask on this run (Gen.blurMask); of the
+    # exhaustive enumeration every eighth array (by its bit pattern), of everything else every array
+    if kind != 'exhaustive<=4x4' or (b != '-' and int(b, 2) % 8 == 1):
+        items.append((f'pipe blurall {sh} {b} 3', '|'.join(outs), {**desc, 'op': f'pipe blurall {sh} {b} 3'}))
+        ctx.count('pipeline:blurall')
     outs = []
     for py, px in [(False, False), (False, True), (True, False), (True, True)]:
         try:
@@ -246,10 +267,16 @@ def blur_one(ctx, arr: np.ndarray, s: int, items: list, fails: list) -> None:
     sh, b = f'{ny}x{nx}', bits(arr)
     line = f'blur {sh} {b} {s}'
     desc = {'prim': {'shape': [ny, nx], 'bits': b}, 'size': s, 'op': line}
+    # the term translated from the source of blur_mask (Gen.blurMask) on the same input; its evaluator reads the padded
+    # array element by element through list indexing, so the very large windows are left to the hand model's line
+    pipe = f'pipe {line}'
+    piped = (2 * abs(s) + 1) ** 2 * arr.size * (ny + 2 * abs(s)) * (nx + 2 * abs(s)) <= 4_000_000
     try:
         got = np.asarray(masking.blur_mask(arr.copy(), size=s))
     except Exception as e:
         items.append((line, 'ERR', desc))
+        if piped:
+            items.append((pipe, 'ERR', {**desc, 'op': pipe}))
         if s >= 0:
             fails.append((arr.size, 'blur-raises', desc, f'blur_mask({sh} {b}, size={s}) raised {type(e).__name__}: {e}'))
         return
@@ -258,6 +285,9 @@ def blur_one(ctx, arr: np.ndarray, s: int, items: list, fails: list) -> None:
         fails.append((arr.size, 'blur-not-ring-dilation', desc, f'blur_mask({sh} {b}, size={s}) has shape {got.shape}'))
         return
     items.append((line, show_arr(got), desc))
+    if piped:
+        items.append((pipe, show_arr(got), {**desc, 'op': pipe}))
+        ctx.count('pipeline:blur')
     if s >= 0:
         exp = dilate_sparse(arr, s)
         if got.shape != arr.shape or not np.array_equal(got.astype(bool), exp):
@@ -281,6 +311,11 @@ def cmask_case(ctx, arr: np.ndarray, items: list, fails: list) -> None:
     except Exception as e:
         out = f'ERR:{type(e).__name__}'
     items.append((desc['op'], out, desc))
+    # the same masks from the terms translated from the source of c_mask_from_centres / smear_mask on this run
+    # (harness/pipelines.py -> Gen.cMaskBack / cMaskLeft / cMaskNode), evaluated on the same face mask
+    pl = f'pipe cmask {sh} {b}'
+    items.append((pl, out, {**desc, 'op': pl}))
+    ctx.count('pipeline:cmask')
 
 
 def run_primitives(ctx, items: list, fails: list) -> None:
@@ -440,8 +475,14 @@ def clip_case(ctx, case: Case, geom, gclass: str, buffer: int, items: list, fail
     shuffled = list(true_cells)
     rng.shuffle(shuffled)
     unsorted_hits = tree_hits is not None and tree_hits != sorted(tree_hits)
+    # "the requested number of neighbour rings": when none is requested there is none - every other call for
+    # zero rings leaves the argument out (chosen without touching the random stream)
+    by_default = buffer == 0 and (len(desc['geom']) + case.ncell) % 2 == 0
+    if by_default:
+        desc['buffer_argument'] = 'left out'
+        ctx.count('buffer:left-out')
     try:
-        ds = c.make_clip_mask(geom, buffer=buffer)
+        ds = c.make_clip_mask(geom) if by_default else c.make_clip_mask(geom, buffer=buffer)
         err = None
     except Exception as e:
         ds, err = None, f'ERR:{type(e).__name__}'
@@ -842,8 +883,10 @@ def run_one(ctx, inp: dict) -> dict:
         items: list = []
         fails: list = []
         dummy = _Dummy(random.Random(0))
-        if 'size' in inp and 'pad_axes' not in inp and not 0 <= inp['size'] <= 3 or inp.get('op', '').startswith('blur '):
+        if 'size' in inp and 'pad_axes' not in inp and not 0 <= inp['size'] <= 3 or inp.get('op', '').startswith(('blur ', 'pipe blur ')):
             blur_one(dummy, arr, inp['size'], items, fails)
+        elif inp.get('op', '').startswith(('cmask ', 'pipe cmask ')):
+            cmask_case(dummy, arr, items, fails)
         else:
             prim_case(dummy, arr, items, fails, 'replay')
         op = inp.get('op')
